@@ -14,6 +14,7 @@ type convBuilder struct {
 	out    []byte
 	cuts   []int // positions where a raw read boundary is forced
 	faults map[int]RawKind // a failing raw read (timeout / error) scripted at this stream position
+	tlsSplit int           // > 0: the stream position after a STARTTLS line at which a real TLS upgrade happens
 }
 
 func (b *convBuilder) line(s string) { b.out = append(b.out, s...); b.out = append(b.out, '\r', '\n') }
@@ -520,7 +521,29 @@ func GenConvMix(rng *rand.Rand, n int, emit func(*Sx)) {
 			b.script.NS = append(b.script.NS, b.berr(100))
 		}
 		txs := 1 + rng.Intn(3)
+		wantTLS := rng.Intn(7) == 0
+		if wantTLS {
+			b.cfg.TLSConfig = true
+			b.cfg.MaxLine = 2000
+		}
 		for t := 0; t < txs; t++ {
+			if wantTLS && b.tlsSplit == 0 && (t == txs-1 || rng.Intn(2) == 0) {
+				// upgrade here: possibly in the middle of a transaction
+				if rng.Intn(2) == 0 {
+					b.mail()
+					if rng.Intn(2) == 0 {
+						b.rcpt()
+					}
+				}
+				if rng.Intn(4) == 0 {
+					b.line("AUTH PLAIN AGEAYg==")
+				}
+				b.line(pick(rng, "STARTTLS", "starttls", "STARTTLS"))
+				b.tlsSplit = len(b.out)
+				if rng.Intn(3) != 0 {
+					b.greet()
+				}
+			}
 			if rng.Intn(8) == 0 {
 				b.misc()
 			}
@@ -552,8 +575,17 @@ func GenConvMix(rng *rand.Rand, n int, emit func(*Sx)) {
 			}
 		}
 		// cut the stream short sometimes
-		if rng.Intn(8) == 0 && len(b.out) > 0 {
+		if rng.Intn(8) == 0 && len(b.out) > 0 && b.tlsSplit == 0 {
 			b.out = b.out[:rng.Intn(len(b.out))]
+		}
+		if b.tlsSplit > 0 {
+			// a real STARTTLS upgrade in the middle: the plaintext phase ends with the STARTTLS line, the
+			// rest is sent inside TLS (one record per segment)
+			plain := segStream(rng, b.out[:b.tlsSplit], nil, rng.Intn(4), Raw{Kind: RawData})
+			plain = plain[:len(plain)-1]
+			inTLS := segStream(rng, b.out[b.tlsSplit:], nil, []int{0, 1, 3}[rng.Intn(3)], rawEOF)
+			emit(RunConv(ConvCase{Cfg: b.cfg, Script: b.script, Phases: [][]Raw{plain, inTLS}}))
+			continue
 		}
 		emit(RunConv(ConvCase{Cfg: b.cfg, Script: b.script, Phases: [][]Raw{b.segment()}}))
 	}
